@@ -121,16 +121,45 @@ class _CoordinateKey(SortOrderKey, Locatable):
                 "Record of type '%s' is not a subclass of "
                 "'Locatable'" % record.__class__.__name__
             )
-        chromosome = record.chromosome
-        if contigs:
+        # compare chromosomes by name (a scheme may have typed "1" as an int
+        # and left "X" a str) and positions as numbers (they are text in
+        # scheme-less files); a component the record does not have, or a
+        # position that is not a number, is treated as missing (ordered last)
+        chromosome = self.__component(record, "chromosome")
+        if chromosome is not None:
+            chromosome = str(chromosome)
+        if contigs and chromosome is not None:
             try:
-                chromosome = contigs.index(chromosome)  # type: ignore
+                chromosome = [str(c) for c in contigs].index(chromosome)  # type: ignore
             except ValueError:
                 raise ValueError(
                     "Could not find contig '%s' in list of contigs: %s"
-                    % (chromosome, ", ".join(contigs))
+                    % (chromosome, ", ".join(str(c) for c in contigs))
                 )
-        Locatable.__init__(self, chromosome, record.start, record.end)
+        Locatable.__init__(
+            self,
+            chromosome,
+            self.__position(self.__component(record, "start")),
+            self.__position(self.__component(record, "end")),
+        )
+
+    @staticmethod
+    def __component(record: Locatable, name: str) -> Any:
+        """Gets a coordinate component, None if the record lacks the column"""
+        try:
+            return getattr(record, name)
+        except KeyError:
+            return None
+
+    @staticmethod
+    def __position(value: Any) -> Optional[int]:
+        """Gets a position as a number, None if missing or not a number"""
+        if value is None:
+            return None
+        try:
+            return int(value)
+        except (TypeError, ValueError, OverflowError):
+            return None
 
     def __cmp__(self, other: '_CoordinateKey') -> int:  # type: ignore[override]
 
